@@ -116,8 +116,13 @@ def disconnect_op(entry, uid):
     return {"entry": entry, "kind": "disconnect", "up_id": H(uid)}
 
 
+def view_op(entry, views):
+    """node `entry` learns (through gossip) what the listed nodes advertise now: its knowledge of them is replaced"""
+    return {"entry": entry, "kind": "view", "view": views}
+
+
 def is_op(rq):
-    return rq["kind"] in ("connect", "disconnect")
+    return rq["kind"] in ("connect", "disconnect", "view")
 
 
 MODEL_BEH = {"gone": "dialfail", "dialfail_once": "dialfail"}
@@ -155,6 +160,10 @@ def phases(cl, co):
         elif rq["kind"] == "disconnect":
             flush()
             nodes[rq["entry"]]["upstreams"] = [u_ for u_ in nodes[rq["entry"]]["upstreams"] if u_["id"] != rq["up_id"]]
+        elif rq["kind"] == "view":
+            flush()
+            ids = {v["id"] for v in rq["view"]}
+            nodes[rq["entry"]]["view"] = [v for v in nodes[rq["entry"]]["view"] if v["id"] not in ids] + copy.deepcopy(rq["view"])
         else:
             cur.append(ri)
             if rq.get("_after"):
@@ -186,7 +195,7 @@ def gen_dynamic_cluster(rng, cid, scenario=None):
     twins     - endpoint ids that differ only by what a URL parser would normalise away ("t" / "t:80" / "T"), alternating;
     goaway    - a forwarded request meets an upstream that has announced go-away: 502, never a second hop;
     flaky     - one failed dial does not deregister an upstream that is still connected"""
-    sc = scenario or rng.choice(["reconnect", "twins", "goaway", "flaky"])
+    sc = scenario or rng.choice(["reconnect", "twins", "goaway", "flaky", "moves"])
     e = rng.choice(["e", "e1", "svc"])
     if sc == "reconnect":
         nodes = [{"id": "n0", "upstreams": [], "view": [view("n1", "node:1", [(e, 1)])]},
@@ -198,6 +207,23 @@ def gen_dynamic_cluster(rng, cid, scenario=None):
         reqs += [hdr_req(0, e, rng) for _ in range(rng.randint(1, 2))]
         if rng.random() < 0.5:
             reqs.append(connect_op(0, up("ua2", e)))
+            reqs += [hdr_req(0, e, rng) for _ in range(2)]
+    elif sc == "moves":
+        # the endpoint's only upstream moves from one remote node to another (agent reconnect / rebalancing) and gossip tells
+        # the entry node: the very next request has to follow it - nothing remembered from the earlier forwarding (a pooled
+        # connection to the old node, a cached route) may be used. Monitor only: the dynamic model has no view updates.
+        nodes = [{"id": "n0", "upstreams": [], "view": [view("n1", "node:1", [(e, 1)]), view("n2", "node:2", [])]},
+                 {"id": "n1", "upstreams": [up("ub", e)], "view": [view("n0", "node:0", []), view("n2", "node:2", [])]},
+                 {"id": "n2", "upstreams": [], "view": [view("n0", "node:0", []), view("n1", "node:1", [(e, 1)])]}]
+        reqs = [hdr_req(0, e, rng) for _ in range(rng.randint(1, 3))]
+        reqs += [disconnect_op(1, "ub"), connect_op(2, up("uc", e)),
+                 view_op(0, [view("n1", "node:1", []), view("n2", "node:2", [(e, 1)])]),
+                 view_op(1, [view("n2", "node:2", [(e, 1)])]), view_op(2, [view("n1", "node:1", [])])]
+        reqs += [hdr_req(0, e, rng) for _ in range(rng.randint(2, 3))] + [hdr_req(1, e, rng)]
+        if rng.random() < 0.5:
+            reqs += [disconnect_op(2, "uc"), connect_op(1, up("ub2", e)),
+                     view_op(0, [view("n1", "node:1", [(e, 1)]), view("n2", "node:2", [])]),
+                     view_op(2, [view("n1", "node:1", [(e, 1)])]), view_op(1, [view("n2", "node:2", [])])]
             reqs += [hdr_req(0, e, rng) for _ in range(2)]
     elif sc == "twins":
         twins = [e, e + ":80", e.upper() if e.upper() != e else e + ".", e + ":"]
@@ -222,7 +248,8 @@ def gen_dynamic_cluster(rng, cid, scenario=None):
         first = hdr_req(0, e, rng)
         first["_after"] = [["beh", 0, "uf", "answer"]]
         reqs = [first] + [hdr_req(0, e, rng, forwarded=rng.random() < 0.3) for _ in range(rng.randint(2, 4))]
-    return {"id": cid, "timeout_ms": NORMAL_TIMEOUT_MS, "kind": "adversarial", "dynamic": True, "scenario": sc, "nodes": nodes, "requests": reqs}
+    return {"id": cid, "timeout_ms": NORMAL_TIMEOUT_MS, "kind": "consistent" if sc == "moves" else "adversarial", "dynamic": True, "scenario": sc,
+            "views_change": sc == "moves", "nodes": nodes, "requests": reqs}
 
 
 # ---------------------------------------------------------------- corpus (hand-picked, always first)
@@ -1215,11 +1242,11 @@ def correspondence(pid, wd, clusters, outs, shard=16, tag="px"):
     """model vs implementation inside Coq; returns [{case, req, codes, names}]"""
     # clusters whose upstreams sit behind a real agent reverse proxy are monitor-only: the model has no third hop
     ok = [((i, ris), pc, po) for i, (c, o) in enumerate(zip(clusters, outs))
-          if not o.get("panic") and len(o["requests"]) == len(c["requests"]) and not c.get("via_agent") and not c.get("dynamic") and not c.get("auth")
+          if not o.get("panic") and len(o["requests"]) == len(c["requests"]) and not c.get("via_agent") and (not c.get("dynamic") or c.get("views_change")) and not c.get("auth")
           for pc, po, ris in phases(c, o)]
     jobs = [ok[i:i + shard] for i in range(0, len(ok), shard)]
     dyn = [(i, c, o) for i, (c, o) in enumerate(zip(clusters, outs))
-           if c.get("dynamic") and not c.get("auth") and not o.get("panic") and len(o["requests"]) == len(c["requests"])]
+           if c.get("dynamic") and not c.get("views_change") and not c.get("auth") and not o.get("panic") and len(o["requests"]) == len(c["requests"])]
 
     def work(arg):
         ji, job = arg
@@ -1368,7 +1395,7 @@ def run_property(ctx, pid, nclusters_quick, nhosts):
     tier = ctx["tier"]
     nclusters = nclusters_quick if tier == "quick" else nclusters_quick * 15
     profile = PROFILES[pid]
-    clusters = corpus() + [gen_dynamic_cluster(random.Random(7 + k), "corpus-dyn-" + sc, sc) for k, sc in enumerate(["reconnect", "twins", "goaway", "flaky"])] \
+    clusters = corpus() + [gen_dynamic_cluster(random.Random(7 + k), "corpus-dyn-" + sc, sc) for k, sc in enumerate(["reconnect", "twins", "goaway", "flaky", "moves"])] \
         + [gen_tls_cluster(random.Random(77), "corpus-tls"), reset_cluster("corpus-reset"), percent_cluster("corpus-percent")] \
         + ([marked_timeout_cluster("corpus-timeout-marked"), agent_burst_cluster("corpus-agent-burst"), empty_404_cluster("corpus-empty-404", False), empty_404_cluster("corpus-empty-404-b", False),
             empty_404_cluster("corpus-empty-404-agent", True)] if pid == "C08" else []) \
